@@ -21,6 +21,9 @@ case "${1:-}" in
   setup)
     build
     ./target/mc/mc audit || exit 2
+    # warm the other build products the quick tier needs (they are rebuilt from /repo on every run anyway)
+    cargo build --offline --profile mcdev -p checks >/dev/null 2>&1 || { echo "MACHINERY-ERROR mcdev build failed"; exit 2; }
+    ./target/mc/mc warm-cfg || exit 2
     exit 0 ;;
   "")
     echo "usage: $0 <ID> quick|thorough | <ID> --replay <file> | setup"; exit 2 ;;
